@@ -100,8 +100,9 @@ class Tup:
     def __init__(self, items): self.items = items
 
 class Interp:
-    def __init__(self, fns):
+    def __init__(self, fns, models=None):
         self.fns = fns
+        self.models = models or {}
     def run(self, key, args, mem):
         """args: list of values; mem: dict arr-> list of BV bytes. returns (ret BV/BF, mem) merged over paths"""
         f = self.fns[key]
@@ -198,7 +199,7 @@ class Interp:
                     val = self.read(rv["place"], env, mem)
             elif k == "aggregate":
                 ops = [self.operand(o, env, mem) for o in rv["ops"]]
-                val = Tup(ops) if rv["agg"] in ("tuple",) else ("RANGEFROM", ops[0]) if rv.get("adt") == "std::ops::RangeFrom" else Tup(ops)
+                val = Tup(ops) if rv["agg"] in ("tuple",) else ("RANGEFROM", ops[0]) if rv.get("adt") in ("std::ops::RangeFrom", "std::ops::Range") else Tup(ops)
             self.write(s["place"], val, env, mem)
         t = b["term"]; k = t["k"]
         if k == "goto": return self._exec(f, t["target"], env, mem, pc, results, depth)
@@ -216,7 +217,13 @@ class Interp:
             c = t["callee"]; path = c.get("resolved") or c["path"]
             args = [self.operand(a, env, mem) for a in t["args"]]
             r = None
-            if path in ("parsed_packet::ParsedPacket::packet", "parsed_packet::ParsedPacket::packet_mut"): r = View("P", 0)
+            modelled = False
+            for suf, fn in self.models.items():
+                if path.endswith(suf) or (c.get("path") or "").endswith(suf):
+                    r = fn(args, mem); modelled = True
+                    break
+            if modelled: pass
+            elif path in ("parsed_packet::ParsedPacket::packet", "parsed_packet::ParsedPacket::packet_mut"): r = View("P", 0)
             elif "Index" in path and isinstance(args[0], View):
                 i = args[1]
                 if isinstance(i, tuple) and i[0] == "RANGEFROM": r = View(args[0].arr, args[0].off + sum((bb_.tt & 1) << n for n, bb_ in enumerate(i[1].bits)))
@@ -238,7 +245,7 @@ class Interp:
             elif path in self.fns or c.get("resolved_local"):
                 key = path if path in self.fns else None
                 if key:
-                    sub = Interp.__new__(Interp); sub.fns = self.fns
+                    sub = Interp.__new__(Interp); sub.fns = self.fns; sub.models = self.models
                     r, mem2 = sub.run(key, args, mem)
                     for kk in mem: mem[kk] = mem2[kk]
             if r is None and not (path.endswith("write_u16") or path.endswith("write_u32")): raise Undecided("call " + path)
